@@ -41,6 +41,11 @@ CLAIMED = {
  "C15": ("PARTIAL. Proved: the variables a fresh block / pattern arm / query introduces are pairwise distinct, new (at or above the counter) "
          "and shadow the enclosing scope; the counter is monotone and each unfolding of a relation constructs its body from the arriving "
          "state's counter; term construction depends only on the free names and is invariant under consistent renaming of a bound name. "
+         "For WHOLE EXECUTIONS (ScopeElab, ScopeState, ScopeStream): goal construction and the four state operations never invent a "
+         "variable, so for all programs, definitions, strategies and fuel every state of every stream has all its variables (substitution, "
+         "stored constraints, domains) below its counter and every pending goal is below the counter of every state it will run in; hence "
+         "every variable drawn at run time (fresh, patterns, wildcards, closure and relation bodies unfolded again, recursively or not) is "
+         "different from every variable of the state and of the enclosing environment. "
          "Whole-program alpha-invariance is decided by compiling each generated program as written and renamed apart.",
          "6/C15", "Coq proof: freshness/distinctness of bind_fresh, counter monotonicity, alpha-invariance of term construction + original-vs-renamed compiled programs",
          "Alpha-invariance of whole goals is checked, not proved; VarID's global atomic counter is modelled as the per-state counter."),
@@ -102,7 +107,7 @@ CLAIMED = {
          "walk loop terminates within the model's fuel. Every substitution in every state of every stream of every elaborated goal is "
          "acyclic (all four state operations preserve it, lifted over the search). Depth-fuel exhaustion is a third, separate outcome.",
          "6/C01", "Coq proof: solution-set characterisation of unification, idempotent mgu from acyclic substitutions, acyclicity as an invariant of the whole search + exhaustive small-scope differential correspondence",
-         "Depth fuel (term recursion, 4000) adequacy is not proved: a term deeper than that gives the separate out-of-fuel outcome in the model (a stack overflow in Rust). The reification step's fresh any-variables are outside the acyclicity invariant (nothing consumes reified states)."),
+         "Depth fuel (term recursion, 4000) adequacy is not proved: a term deeper than that gives the separate out-of-fuel outcome in the model (a stack overflow in Rust). The reification step keeps the substitution acyclic as well (ScopeReify, from the scoping invariant of C15)."),
  "C02": ("Theorems: posting u != v stores a constraint that holds exactly when u and v differ (or nothing / failure in the two decided "
          "cases); re-checking after a unification keeps an equivalent constraint, drops only satisfied ones and fails only on violated "
          "ones; subsumption is implication; normalisation preserves the meaning of the store; the store's meaning is order-free. WHOLE "
@@ -113,7 +118,10 @@ CLAIMED = {
          "The completeness direction for whole programs (every ground solution of the program is an instance of some answer) is checked by the ground oracle over a finite universe, not proved."),
  "C03": ("Theorems: reported constraints mention only reified variables of the answer; constraints() returns exactly the reported "
          "constraints with an operand among the any-variables occurring anywhere in the term (lists and compounds included); reification only "
-         "adds bindings to new any-variables.",
+         "adds bindings to new any-variables. From an acyclic, scoped substitution (which every state of every execution has: C01, C15) the "
+         "reified names are drawn from the counter: new (different from every variable of the state and the term), pairwise different, one "
+         "per renamed variable, each unbound before; the result is acyclic and scoped, so all occurrences of a variable across the query "
+         "variables resolve to one name (ScopeReify).",
          "6/C03", "Coq proof: structural lemmas of purify / anyvars / reify + per-answer structural oracle on the implementation",
          "Injectivity of reification across query variables is checked on every answer, not proved."),
  "C04": ("Proved: permuting the clauses of a disjunction permutes its admissible answers; two equalities (and two disequalities) posted in "
